@@ -22,11 +22,22 @@ type C16Case struct {
 	Show   string `json:"show"`
 	Cuts   []int  `json:"cuts"` // Write boundaries; [-1] = one octet per Write
 	Reject bool   `json:"reject"`
+	Env    int    `json:"env"` // which envelope (c16Envelopes)
+}
+
+// envelopes: characters that mean something to fmt, to the path grammar or to xtext must arrive as given
+var c16Envelopes = []struct {
+	from  string
+	rcpts []string
+}{
+	{"sender@a.example", []string{"r1@b.example", "r2@b.example"}},
+	{"100%%real@a.example", []string{"user%example.org@relay.example", "%s%d%v@b.example"}},
+	{"a+b=c@a.example", []string{"x!y#z@b.example", "o'brien+tag@b.example", "{curly}|pipe~@b.example"}},
 }
 
 func evalC16(c C16Case) *h.Finding {
 	var f *h.Finding
-	desc := fmt.Sprintf("lmtp=%t body=%q cuts=%v reject=%t", c.LMTP, c.Body, c.Cuts, c.Reject)
+	desc := fmt.Sprintf("lmtp=%t body=%q cuts=%v reject=%t envelope=%d", c.LMTP, c.Body, c.Cuts, c.Reject, c.Env)
 	cfg := h.Config{LMTP: c.LMTP}
 	be := &h.Backend{}
 	var verdict error
@@ -34,7 +45,7 @@ func evalC16(c C16Case) *h.Finding {
 		verdict = &smtp.SMTPError{Code: 554, EnhancedCode: smtp.EnhancedCode{5, 6, 0}, Message: "message refused"}
 	}
 	be.Plan = func(int) h.DataPlan { return h.DataPlan{Max: -1, Verdict: verdict} }
-	from, rcpts := "sender@a.example", []string{"r1@b.example", "r2@b.example"}
+	from, rcpts := c16Envelopes[c.Env].from, c16Envelopes[c.Env].rcpts
 	leak, pan := h.Bubble(func() {
 		h.WithRealServer(cfg, be, false, func(cs *h.CS) {
 			cl := cs.Client
@@ -140,6 +151,9 @@ func evalC16(c C16Case) *h.Finding {
 			rc = append(rc, e.Arg)
 		}
 	}
+	if a := be.FirstAnomaly(); a != "" {
+		return h.F("c16-backend-anomaly", "%s: %s", desc, a)
+	}
 	want := ref.DotStuffNormalize(c.Body)
 	if len(data) != 2 {
 		return h.F("c16-data-calls", "%s: %d Data calls, want 2", desc, len(data))
@@ -165,7 +179,7 @@ func C16(tier string) int {
 		maxTok = 7
 	}
 	tokens := []string{".", "\n", "\r\n", "a"}
-	run.Rule = fmt.Sprintf("all message bodies of <=%d tokens over {'.', LF, CRLF, 'a'} (and the empty body) x partitions into Write calls {one Write, one octet per Write, every 2-split} x server verdict {accept, reject} x {SMTP, LMTP}, each a complete real-client -> real-server conversation in a synctest bubble (a client waiting for a reply that never comes is reported by the runtime as a deadlock). Distinct by construction; non-trivial = body contains '.' or a line break. Oracle: backend octets == ref.DotStuffNormalize(body) then EOF; envelope as given; Close returns the server's verdict; a second Close returns an error, writes nothing and causes no reply; the connection stays in step. Labelled supplement: seeded random 8-bit bodies.", maxTok)
+	run.Rule = fmt.Sprintf("all message bodies of <=%d tokens over {'.', LF, CRLF, 'a'} (and the empty body) x partitions into Write calls {one Write, one octet per Write, every 2-split} x server verdict {accept, reject} x {SMTP, LMTP}, cycling through 3 envelopes (plain; '%' in sender and recipients; atext specials), each a complete real-client -> real-server conversation in a synctest bubble (a client waiting for a reply that never comes is reported by the runtime as a deadlock). Distinct by construction; non-trivial = body contains '.' or a line break. Oracle: backend octets == ref.DotStuffNormalize(body) then EOF; envelope as given; Close returns the server's verdict; a second Close returns an error, writes nothing and causes no reply; the connection stays in step. Labelled supplement: seeded random 8-bit bodies.", maxTok)
 	run.Assumptions = []string{"CR occurs only as part of CRLF (as the statement requires)", "an empty body arrives as a single CRLF ('final CRLF ensured')"}
 	var bodies [][]byte
 	var rec func(cur []byte, n int)
@@ -192,7 +206,7 @@ func C16(tier string) int {
 		for _, cuts := range cutsList {
 			for _, rej := range []bool{false, true} {
 				for _, lmtp := range []bool{false, true} {
-					c := C16Case{LMTP: lmtp, Body: b, Cuts: cuts, Reject: rej}
+					c := C16Case{LMTP: lmtp, Body: b, Cuts: cuts, Reject: rej, Env: (i + len(cuts)) % len(c16Envelopes)}
 					f := evalC16(c)
 					run.Eval(bytes.ContainsAny(b, ".\n"))
 					if f != nil {
